@@ -121,7 +121,11 @@ class Lexer:
         self.re_pattern = r"/(?P<G_RE>.+?)/(?P<G_RE_FLAGS>[aims]*)"
 
         # func(
-        self.function_pattern = r"(?P<G_FUNC>[a-z][a-z_0-9]+)\(\s*"
+        # A keyword operator followed by a parenthesized expression is not a
+        # function call.
+        self.function_pattern = (
+            r"(?!(?:and|or|not|in|contains)\()(?P<G_FUNC>[a-z][a-z_0-9]+)\(\s*"
+        )
 
         self.rules = self.compile_rules()
 
